@@ -31,29 +31,19 @@ Theorem C16_image_refuted : ~ C16_image_statement.
 Proof. exact image_refuted. Qed.
 Print Assumptions C16_image_refuted.
 
-(* Without any transport error, but for devices of either strictness. *)
-Definition C16_image_notransport_statement : Prop :=
-  forall mode strict evt dst src nargs sc,
-    In mode modes -> In (evt, dst) implemented_events -> In src o2_states ->
-    let ob := run_root (mk_root mode strict evt dst src nargs) sc in
-    no_transport ob = true ->
-    o_final ob = image mode (o_dev ob).
-
-(* Refuted as well (finding C16-b): BIND refused in place, RESET DEVICE roll-back performed (device
-   IDLE), then doConfigure carries on with CONNECT from source BOUND, which a source-checking
-   device rejects with an RPC error: report "" while the device is IDLE (image STANDBY). *)
-Theorem C16_image_notransport_refuted : ~ C16_image_notransport_statement.
-Proof. exact image_notransport_refuted. Qed.
-Print Assumptions C16_image_notransport_refuted.
-
-(* What does hold: no transport error and a device that does not check the source state. *)
-Theorem C16_image_partial : forall mode evt dst src nargs sc,
-  In mode modes -> In (evt, dst) implemented_events -> In src o2_states ->
-  let ob := run_root (mk_root mode false evt dst src nargs) sc in
+(* Without any transport error the full statement holds (since the repair of finding C16-b): all
+   seven events of the task state machine, every source state, lenient and source-checking
+   devices, every script of performed / refused / error-state outcomes of any length.  Before the
+   repair a follow-up request could carry a source state the device had already left (CONNECT from
+   BOUND after an accepted roll-back to IDLE; END from READY after the reset phase of EXIT), which
+   a source-checking device rejects with an RPC error: "" was reported. *)
+Theorem C16_image_notransport : forall mode strict evt dst src nargs sc,
+  In mode modes -> In (evt, dst) task_events -> In src o2_states ->
+  let ob := run_root (mk_root mode strict evt dst src nargs) sc in
   no_transport ob = true ->
   o_final ob = image mode (o_dev ob).
-Proof. exact image_partial. Qed.
-Print Assumptions C16_image_partial.
+Proof. exact image_notransport. Qed.
+Print Assumptions C16_image_notransport.
 
 (* And for everything (all seven task events, both strictnesses, every script): the report is the
    image of the real state, or it is empty and some request ended in an RPC error. A wrong
@@ -67,26 +57,15 @@ Proof. exact image_or_unknown. Qed.
 Print Assumptions C16_image_or_unknown.
 
 (* ---- clause 3: success is reported only if the device reached the destination ---- *)
+(* All seven events of the task state machine (since the repair of finding C16-c, FairMQ RECOVER
+   and GO_ERROR, which are not implemented and request nothing from the device, report an error). *)
 Theorem C16_success_sound : forall mode strict evt dst src nargs sc,
-  In mode modes -> In (evt, dst) implemented_events -> In src o2_states ->
+  In mode modes -> In (evt, dst) task_events -> In src o2_states ->
   let ob := run_root (mk_root mode strict evt dst src nargs) sc in
   o_err ob = false ->
   o_dev ob = dev_of mode dst /\ o_final ob = dst.
 Proof. exact success_sound. Qed.
 Print Assumptions C16_success_sound.
-
-(* The same over all seven events of the task state machine is refuted (finding C16-c): FairMQ
-   GO_ERROR (and RECOVER) report success and the source state without asking the device. *)
-Definition C16_success_all_events_statement : Prop :=
-  forall mode strict evt dst src nargs sc,
-    In mode modes -> In (evt, dst) task_events -> In src o2_states ->
-    let ob := run_root (mk_root mode strict evt dst src nargs) sc in
-    o_err ob = false ->
-    o_dev ob = dev_of mode dst /\ o_final ob = dst.
-
-Theorem C16_success_all_events_refuted : ~ C16_success_all_events_statement.
-Proof. exact success_all_events_refuted. Qed.
-Print Assumptions C16_success_all_events_refuted.
 
 (* ---- clause 2: roll-back ---- *)
 (* If the first request that the device answers in place leaves it in an intermediate state
@@ -111,25 +90,15 @@ Proof. exact rollback. Qed.
 Print Assumptions C16_rollback.
 
 (* ---- a device that performs everything it is asked ---- *)
-Definition C16_compliant_device_statement : Prop :=
-  forall mode strict evt dst src nargs sc,
-    In mode modes -> In (evt, dst, src) legit_transitions -> Forall (fun o => o = Done) sc ->
-    let ob := run_root (mk_root mode strict evt dst src nargs) sc in
-    o_err ob = false /\ o_final ob = dst /\ o_dev ob = dev_of mode dst.
-
-(* Refuted (finding C16-b again): EXIT from CONFIGURED sends END with source READY after the
-   reset phase has brought the device to IDLE; a source-checking device rejects it, so the
-   transition can never complete: device left in IDLE, report "" with an error. *)
-Theorem C16_compliant_device_refuted : ~ C16_compliant_device_statement.
-Proof. exact compliant_refuted. Qed.
-Print Assumptions C16_compliant_device_refuted.
-
-Theorem C16_compliant_device_partial : forall mode evt dst src nargs sc,
+(* Every transition a task really gets, on lenient and source-checking devices alike (since the
+   repair of finding C16-b, EXIT from CONFIGURED sends END from the state its reset phase reached,
+   so a source-checking device no longer rejects it): success, destination reported and reached. *)
+Theorem C16_compliant_device : forall mode strict evt dst src nargs sc,
   In mode modes -> In (evt, dst, src) legit_transitions -> Forall (fun o => o = Done) sc ->
-  let ob := run_root (mk_root mode false evt dst src nargs) sc in
+  let ob := run_root (mk_root mode strict evt dst src nargs) sc in
   o_err ob = false /\ o_final ob = dst /\ o_dev ob = dev_of mode dst.
-Proof. exact compliant_partial. Qed.
-Print Assumptions C16_compliant_device_partial.
+Proof. exact compliant. Qed.
+Print Assumptions C16_compliant_device.
 
 (* ---- mechanism: reply acceptance (client.go:doTransition), for every reply whatsoever ---- *)
 Theorem C16_reply_accepted_iff : forall ei trg st ev ok,
@@ -159,18 +128,19 @@ Theorem C16_state_map_forward_documented : forall st,
 Proof. exact forward_map_is_dev_of. Qed.
 Print Assumptions C16_state_map_forward_documented.
 
-(* ---- the monitor evaluated by the harness, on the model: only the three recorded classes of
-   violation can ever show up, and none without a transport error on a lenient device ---- *)
+(* ---- the monitor evaluated by the harness, on the model: only the one recorded class of
+   violation (1: empty state after a transport error, finding C16-a) can ever show up, and none
+   without a transport error ---- *)
 Theorem C16_monitor_bridge : forall mode strict evt dst src nargs sc,
   In mode modes -> In (evt, dst) task_events -> In src o2_states ->
   let r := mk_root mode strict evt dst src nargs in
-  In (mon16 (CRun r sc (run_root r sc))) [0; 1; 2; 6].
+  In (mon16 (CRun r sc (run_root r sc))) [0; 1].
 Proof. exact monitor_bridge. Qed.
 Print Assumptions C16_monitor_bridge.
 
-Theorem C16_monitor_clean : forall mode evt dst src nargs sc,
-  In mode modes -> In (evt, dst) implemented_events -> In src o2_states ->
-  let r := mk_root mode false evt dst src nargs in
+Theorem C16_monitor_clean : forall mode strict evt dst src nargs sc,
+  In mode modes -> In (evt, dst) task_events -> In src o2_states ->
+  let r := mk_root mode strict evt dst src nargs in
   no_transport (run_root r sc) = true ->
   mon16 (CRun r sc (run_root r sc)) = 0.
 Proof. exact monitor_clean. Qed.
@@ -197,10 +167,11 @@ Example C16_nonvacuous :
   (let ob := run_root (mk_root MODE_FAIRMQ true E_CONFIGURE O2_CONFIGURED O2_STANDBY 1) [] in
    o_err ob = false /\ o_final ob = O2_CONFIGURED /\ o_dev ob = D_READY /\ length (o_log ob) = 5%nat) /\
   (* roll-back: BIND refused in place, RESET DEVICE performed; hypotheses of C16_rollback and of
-     C16_image_partial hold, device back in IDLE, STANDBY reported with an error *)
-  (let ob := run_root (mk_root MODE_FAIRMQ false E_CONFIGURE O2_CONFIGURED O2_STANDBY 1)
+     C16_image_notransport hold on a source-checking device, device back in IDLE, nothing more is
+     requested, STANDBY reported with an error *)
+  (let ob := run_root (mk_root MODE_FAIRMQ true E_CONFIGURE O2_CONFIGURED O2_STANDBY 1)
                       [Done; Done; Refused; Done; ErrState] in
-   no_transport ob = true /\
+   no_transport ob = true /\ length (o_log ob) = 4%nat /\
    match o_log ob with
    | a :: b :: st :: rb :: _ =>
      in_place a = false /\ in_place b = false /\
@@ -209,6 +180,10 @@ Example C16_nonvacuous :
      o_dev ob = D_IDLE /\ o_final ob = O2_STANDBY /\ o_err ob = true
    | _ => False
    end) /\
+  (* EXIT from CONFIGURED on a source-checking device: RESET TASK, RESET DEVICE, END from IDLE *)
+  (let ob := run_root (mk_root MODE_FAIRMQ true E_EXIT O2_DONE O2_CONFIGURED 1) [] in
+   o_err ob = false /\ o_final ob = O2_DONE /\ o_dev ob = D_EXITING /\
+   map (fun st => ei_src (s_ei st)) (o_log ob) = [D_READY; D_DEVICE_READY; D_IDLE]) /\
   (* a reply that is accepted *)
   do_transition (EI T_RUN D_READY D_RUNNING 0) (Reply trigger_EXECUTOR D_RUNNING T_RUN true)
     = (D_RUNNING, false).
